@@ -39,6 +39,15 @@ import (
 //     consumer counts included.
 var apiPaths = []string{"/live/a", "/live/b", "/LIVE/A", "/live/front door", "/live/front%20door", "/live/a%2fb", "/live/a/b", "/live/100%", "/live/c+d", "/live/c d", "/live/camÉra", "/live/%41"}
 
+func keys(m map[string]*media.Stream) []string {
+	var out []string
+	for k := range m {
+		out = append(out, k)
+	}
+	sort.Strings(out)
+	return out
+}
+
 func apiEscape(p string) string {
 	parts := strings.Split(p, "/")
 	for i := range parts {
@@ -202,11 +211,21 @@ func TestRegistryThroughAPI(t *testing.T) {
 				}
 				cons[cp] = keep
 				others(cp)
-			default: // listing, every page
+			default: // listing, every page; sometimes the stream a page token names leaves between two pages
 				size := rapid.IntRange(1, 4).Draw(t, "pageSize")
-				hist = append(hist, fmt.Sprintf("GET streams page_size=%d (all pages)", size))
-				var got []string
-				tokenv := ""
+				leaveMidWalk := rapid.IntRange(0, 2).Draw(t, "tokenStreamLeavesMidWalk") == 0
+				arbitrary := ""
+				if rapid.IntRange(0, 3).Draw(t, "arbitraryToken") == 0 {
+					// a token that names no stream at all (a directory prefix, a stream that is gone)
+					arbitrary = rapid.SampledFrom([]string{"/live", "/live/", "/live/b0", "/live/c", "/l", "/live/zzz"}).Draw(t, "token")
+				}
+				hist = append(hist, fmt.Sprintf("GET streams page_size=%d (all pages; first token %q; token's stream leaves mid-walk: %v)", size, arbitrary, leaveMidWalk))
+				startLive := map[string]bool{}
+				for p := range live {
+					startLive[p] = true
+				}
+				seen := map[string]int{}
+				tokenv := arbitrary
 				for page := 0; page < 60; page++ {
 					code, body := do("GET", "/api/v1/streams", url.Values{"page_size": {fmt.Sprint(size)}, "page_token": {tokenv}})
 					var l struct {
@@ -220,26 +239,38 @@ func TestRegistryThroughAPI(t *testing.T) {
 					if code != 200 || json.Unmarshal(body, &l) != nil {
 						evid.Violation(t, "api-listing", hist, "listing: status %d %.200s", code, body)
 					}
-					mine := 0
 					for _, st := range l.Streams {
-						if _, ok := live[st.Path]; ok || strings.HasPrefix(st.Path, "/live/") {
-							got = append(got, fmt.Sprintf("%s cc=%d", st.Path, st.CC))
-							mine++
+						if strings.HasPrefix(st.Path, "/live/") {
+							seen[st.Path]++
+							if want, ok := cons[st.Path]; ok && live[st.Path] != nil && st.CC != len(want) {
+								evid.Violation(t, "api-listing", hist, "the listing shows %q with %d consumers, it has %d", st.Path, st.CC, len(want))
+							}
 						}
 					}
 					if len(l.Streams) == 0 || l.Next == tokenv {
 						break
 					}
 					tokenv = l.Next
+					if leaveMidWalk && live[tokenv] != nil && len(live) > 1 {
+						// the stream the token names ends before the next page is asked for
+						leaveMidWalk = false
+						hist = append(hist, "  (between two pages: unpublish "+tokenv+")")
+						srv.Unpublish(live[tokenv])
+						delete(live, tokenv)
+						delete(cons, tokenv)
+					}
 				}
-				var want []string
+				// every stream that was live during the whole walk and sorts behind the first
+				// token appears exactly once; nothing that was never live appears
 				for p := range live {
-					want = append(want, fmt.Sprintf("%s cc=%d", p, len(cons[p])))
+					if p > arbitrary && seen[p] != 1 {
+						evid.Violation(t, "api-listing", hist, "the live stream %q was listed %d times during the walk (page size %d, first token %q); listed: %v; live now: %v", p, seen[p], size, arbitrary, seen, keys(live))
+					}
 				}
-				sort.Strings(want)
-				sort.Strings(got)
-				if fmt.Sprint(got) != fmt.Sprint(want) {
-					evid.Violation(t, "api-listing", hist, "the pages of the listing give %q, the live streams are %q", got, want)
+				for p, n := range seen {
+					if !startLive[p] || n > 1 || (p <= arbitrary) {
+						evid.Violation(t, "api-listing", hist, "the walk listed %q %d times (live at the start: %v, first token %q)", p, n, startLive[p], arbitrary)
+					}
 				}
 			}
 		}
